@@ -362,7 +362,9 @@ define_function(data_serial_correlation)
       for (i = 0; i < data_len; i++)
       {
         sccun = (double) *(block_data + data_offset + i);
-        if (i == 0)
+        // The first byte of the whole range, not the first byte of every
+        // memory block the range spans.
+        if (i == 0 && !past_first_block)
         {
           sccfirst = sccun;
         }
@@ -453,6 +455,11 @@ define_function(data_monte_carlo_pi)
 
   size_t i;
 
+  // The six-byte groups run over the whole range, they don't restart with
+  // every memory block the range spans.
+  unsigned int monte[6];
+  size_t pos = 0;
+
   int64_t offset = integer_argument(1);
   int64_t length = integer_argument(2);
 
@@ -470,8 +477,6 @@ define_function(data_monte_carlo_pi)
   {
     if (offset >= block->base && offset < block->base + block->size)
     {
-      unsigned int monte[6];
-
       size_t data_offset = (size_t) (offset - block->base);
       size_t data_len = (size_t) yr_min(
           length, (size_t) (block->size - data_offset));
@@ -486,9 +491,9 @@ define_function(data_monte_carlo_pi)
 
       for (i = 0; i < data_len; i++)
       {
-        monte[i % 6] = (unsigned int) *(block_data + data_offset + i);
+        monte[pos % 6] = (unsigned int) *(block_data + data_offset + i);
 
-        if (i % 6 == 5)
+        if (pos++ % 6 == 5)
         {
           double mx = 0;
           double my = 0;
